@@ -62,10 +62,10 @@ EXACT_TUS = [dict(file=f) for f in (HDR, VAL, STR, REC, BASIC, SIG)]
 
 
 def exact_unit(nm, n, assume, tier, reval=0, expect=120, note=''):
-    defs = ['VERIF_N=%d' % n, 'VERIF_REVALIDATE=%d' % reval]
+    defs = ['VERIF_N=%d' % n]
     if assume:
         defs.append('VERIF_HDR_ASSUME=%s' % assume)
-    UNITS.append(dict(name='C01.hdr.exact.%s' % nm, props=['C01', 'C10', 'C12'] if reval else ['C01', 'C10'], kind='B', route='stub', tus=EXACT_TUS, replace_calls={'_dbus_validate_body_with_reason': 'verif_stub_validate_body'},
+    UNITS.append(dict(name='C01.hdr.exact.%s' % nm, props=['C01', 'C10', 'C12'] if reval else ['C01', 'C10'], kind='B', route='stub', tus=EXACT_TUS, replace_calls={'_dbus_validate_body_with_reason': 'verif_stub_validate_body', '_dbus_header_cache_revalidate': 'verif_stub_cache_revalidate'},
                       harness='harness/c01h_exact.c', extra_sources=[ASSERT, 'stubs/list_as_stack.c', 'stubs/c07_mem.c'], defines=defs,
                       unwind=n + 3, timeout=3000, tier=tier, expect_s=expect, trace_is_execution=True, replay_family='header', replay_fn='load',
                       bounds={'header_bytes': n, 'skeleton': note or 'none (every byte symbolic)', 'byte_order': 'both',
@@ -80,12 +80,19 @@ def exact_unit(nm, n, assume, tier, reval=0, expect=120, note=''):
                                    'the header string has capacity for the copy (no reallocation inside _dbus_string_copy_len)']))
 
 
-# skeletons: the variant signature bytes (length, type code, NUL) of each field are concrete, everything else is symbolic:
-# byte order, type, flags, version, body length, serial, fields-array length, field codes, values, string lengths and contents
-# (assigned, not assumed: symbolic execution must see them as constants to follow the signature)
-SK_U = "in_buf[17]=1;in_buf[18]='u';in_buf[19]=0;"
-SK_UU = "in_buf[17]=1;in_buf[18]='u';in_buf[19]=0;in_buf[25]=1;in_buf[26]='u';in_buf[27]=0;"
-SK_S = "in_buf[17]=1;in_buf[18]='s';in_buf[19]=0;"
-SK_O = "in_buf[17]=1;in_buf[18]='o';in_buf[19]=0;"
-SK_G = "in_buf[17]=1;in_buf[18]='g';in_buf[19]=0;"
-exact_unit('n24', 24, None, 'quick')
+# skeletons: byte order, total length, fields-array length and the variant signature bytes (length, type code, NUL) of each
+# field are constants (ASSIGNED, not assumed: symbolic execution must see them as constants to follow the signature; with
+# a symbolic array length the real reader is explored on garbage "elements" behind the array: no result in 10 min).
+# Symbolic: message type, flags, version, body length, serial, every field code, every value, string lengths and contents.
+def skel(le, n, fal, sigs):
+    """sigs: list of (offset of the element, type code)"""
+    w = [fal & 255, (fal >> 8) & 255, 0, 0]
+    if not le:
+        w.reverse()
+    a = "in_len=%d;in_buf[0]='%s';" % (n, 'l' if le else 'B') + ''.join('in_buf[%d]=%d;' % (12 + i, w[i]) for i in range(4))
+    for off, t in sigs:
+        a += "in_buf[%d]=1;in_buf[%d]='%s';in_buf[%d]=0;" % (off + 1, off + 2, t, off + 3)
+    return a
+
+
+exact_unit('u.le24', 24, skel(1, 24, 8, [(16, 'u')]), 'quick', note='little endian, 24 bytes, one field (code symbolic) with variant signature "u"')
